@@ -88,7 +88,10 @@ impl RequestHandler<References> for FindReferencesHandler {
                 true => def.definition_and_usages(),
                 false => def.usages(),
             })
-            .map(|dl| to_location(analysis.look_up(dl.span)))
+            // What is defined once per invocation of a macro is found once per invocation, at the same place
+            .map(|dl| dl.span)
+            .unique()
+            .map(|span| to_location(analysis.look_up(span)))
             .collect_vec();
 
         Ok(Some(locations))
@@ -107,24 +110,32 @@ impl RequestHandler<DocumentHighlightRequest> for DocumentHighlightRequestHandle
         let codegen = ctx.codegen().unwrap();
         let codegen = codegen.lock().unwrap();
         let analysis = codegen.analysis();
-        let defs = ctx.find_definitions(analysis, &params.text_document_position_params);
+        let path = match document_path(&params.text_document_position_params.text_document.uri) {
+            Some(path) => path,
+            None => return Ok(None),
+        };
+        // The same symbols that 'find references' looks at: an imported file is a definition that contains every
+        // position in the file, but it is not what is to be highlighted
+        let defs = analysis.find_filter(
+            path,
+            to_line_col(&params.text_document_position_params.position),
+            |ty| matches!(ty, DefinitionType::Symbol(_)),
+        );
         let highlights = defs
             .into_iter()
-            .flat_map(|(_, def)| {
-                def.definition_and_usages()
-                    .into_iter()
-                    .filter_map(|dl| {
-                        let loc = to_location(analysis.look_up(dl.span));
-                        if loc.uri == params.text_document_position_params.text_document.uri {
-                            Some(DocumentHighlight {
-                                range: loc.range,
-                                kind: None,
-                            })
-                        } else {
-                            None
-                        }
+            .flat_map(|(_, def)| def.definition_and_usages())
+            .map(|dl| dl.span)
+            .unique()
+            .filter_map(|span| {
+                let loc = to_location(analysis.look_up(span));
+                if loc.uri == params.text_document_position_params.text_document.uri {
+                    Some(DocumentHighlight {
+                        range: loc.range,
+                        kind: None,
                     })
-                    .collect_vec()
+                } else {
+                    None
+                }
             })
             .collect();
 
